@@ -956,6 +956,10 @@ def casts_visit(R):
             node.ResolveType(I, I)
         elif kind == "ArrayExpression":
             node = a.ArrayExpression(ag.E("p", ty.ArrayType(I, [4])), ag.E("i", I))
+        elif label == "VariableDeclaration/init":
+            node = a.VariableDeclaration(I, "v", ag.E("init", I))          # (every expression carries a type after the typing pass)
+        elif label == "ReturnStatement/value":
+            node = a.ReturnStatement(ag.E("e", I))
         kids = ag.children_of(node)
         vis = cls()
         try:
@@ -1002,6 +1006,34 @@ def casts_visit(R):
                     print(src); print('f(1.5) =', got, '; g takes an int: g(1.5) is g(1) = 1, h(1) = 2')
                     if got != 2: print('REPLAY-CONFIRMED')
                     """) if kind in ("CallExpression",) else None)
+    # assignment, initialiser and return convert the value to the type of the target (C05: `int i = 1.5; a[i]` must not reach the VM with a
+    # float index; C01: the value stored in an int variable is an int)
+    SC = {"int": I, "float": F, "uint": U, "float2": ty.VectorType(F, 2), "int2": ty.VectorType(I, 2)}
+    same_shape = [(x, y) for x in SC for y in SC if tc.desc(SC[x])[0] == tc.desc(SC[y])[0] and tc.desc(SC[x])[2] == tc.desc(SC[y])[2]]
+
+    def converted(node_value, original, target_name, source_name):
+        if tc.desc(SC[target_name])[1] == tc.desc(SC[source_name])[1]:
+            return node_value is original
+        return isinstance(node_value, a.CastExpression) and node_value.GetArgument() is original and repr(node_value.GetType()) == repr(SC[target_name])
+
+    for tt, st in same_shape:
+        l, r = ag.E("l", SC[tt]), ag.E("r", SC[st])
+        n = a.AssignmentExpression(l, r)
+        n.ResolveType(SC[tt], SC[st])
+        cls().v_Generic(n, None)
+        R.check(f"CASTS.assign[{tt} = {st}]", AIC + ".v_BinaryExpression", n.GetLeft() is l and converted(n.GetRight(), r, tt, st),
+                detail=f"`{tt} l; l = <{st}>`: right-hand side after the pass is {type(n.GetRight()).__name__}:{n.GetRight().GetType()}")
+        init = ag.E("init", SC[st])
+        d = a.VariableDeclaration(SC[tt], "v", init)
+        cls().v_Generic(d, None)
+        R.check(f"CASTS.init[{tt} v = {st}]", AIC, converted(d.GetInitializerExpression(), init, tt, st),
+                detail=f"`{tt} v = <{st}>`: initialiser after the pass is {type(d.GetInitializerExpression()).__name__}:{d.GetInitializerExpression().GetType()}")
+        e = ag.E("e", SC[st])
+        ret = a.ReturnStatement(e)
+        fnode = a.Function("f", [], SC[tt], a.CompoundStatement([ret]))
+        cls().v_Generic(fnode, None)
+        R.check(f"CASTS.return[{tt} <- {st}]", AIC, converted(ret.GetExpression(), e, tt, st),
+                detail=f"`function f() -> {tt} {{ return <{st}>; }}`: returned expression after the pass is {type(ret.GetExpression()).__name__}:{ret.GetExpression().GetType()}")
     # call arguments end up at the parameter's component type
     T = {"int": I, "float": F, "uint": U, "float2": ty.VectorType(F, 2), "int2": ty.VectorType(I, 2), "float4": ty.VectorType(F, 4), "int4": ty.VectorType(I, 4)}
     conv = [(x, y) for x in T for y in T if tc.desc(T[x])[0] == tc.desc(T[y])[0] and tc.desc(T[x])[2] == tc.desc(T[y])[2]]
